@@ -27,14 +27,14 @@ func init() { core.Register(c09{}) }
 func (c09) ID() string    { return "C09" }
 func (c09) Level() string { return "exploration" }
 func (c09) Rule() string {
-	return "cases = (index type, I/O type, DataFileSize 16..64 KiB, 4..16 client goroutines, seed): every client runs a seed-determined stream over Put, Get, Delete (a handful of shared keys), ListKeys, Fold, NewIterator+walk+Close (forward/reverse/prefix), Stat, Sync, batches (NewBatch..Commit inside one goroutine, with Batch.Get) and Merge, in a harness built with -race (which implies checkptr); a stateless hook handler yields/sleeps at the engine's hook points to widen windows; the harness itself shares no per-call synchronisation between clients (per-client logs, merged after Wait) so that it adds no happens-before edges that would hide engine races. Violations: a race-detector report with an engine frame (reports are de-duplicated by the pair of innermost engine functions), a panic recovered around any call, a fatal runtime error (worker death), an internal-inconsistency error (ErrIndexUpdateFailed, ErrDataFileNotFound, ErrInvalidCRC, io.EOF, ErrClosed, ErrIncompleteTail) from an individually valid call, a value returned by Get/Fold/iterator that no client wrote for that key, nil or unsorted keys from ListKeys, and a deadlock: no call completes for 30 s AND two goroutine dumps 10 s apart show every client goroutine parked in the same sync.(RW)Mutex acquisition inside engine frames; a stall without that signature is inconclusive. Non-trivial: run in which >=8 of the 12 call kinds overlapped in time with a Put and >=1 rotation happened; distinct = (config, clients, seed)"
+	return "cases = (index type, I/O type, DataFileSize 16..64 KiB, 4..16 client goroutines, seed): every client runs a seed-determined stream over Put, Get, Delete (a handful of shared keys), ListKeys, Fold, NewIterator+walk+Close (forward/reverse/prefix), Stat, Sync, batches (NewBatch..Commit inside one goroutine, with Batch.Get; and ONE Batch object shared with 2..4 helper goroutines that Get unstaged keys, Put and Delete on it while the owner stages and commits) and Merge, in a harness built with -race (which implies checkptr); a stateless hook handler yields/sleeps at the engine's hook points to widen windows; the harness itself shares no per-call synchronisation between clients (per-client logs, merged after Wait) so that it adds no happens-before edges that would hide engine races. Violations: a race-detector report with an engine frame (reports are de-duplicated by the pair of innermost engine functions), a panic recovered around any call, a fatal runtime error (worker death), an internal-inconsistency error (ErrIndexUpdateFailed, ErrDataFileNotFound, ErrInvalidCRC, io.EOF, ErrClosed, ErrIncompleteTail) from an individually valid call, a value returned by Get/Fold/iterator that no client wrote for that key, nil or unsorted keys from ListKeys, and a deadlock: no call completes for 30 s AND two goroutine dumps 10 s apart show every client goroutine parked in the same sync.(RW)Mutex acquisition inside engine frames; a stall without that signature is inconclusive. Non-trivial: run in which >=8 of the 12 call kinds overlapped in time with a Put and >=1 rotation happened; distinct = (config, clients, seed)"
 }
 func (c09) Assumptions() []string {
 	return []string{"the race detector reports races only on executed paths and keeps a bounded access history; a clean run is not race freedom",
 		"Close/Backup racing with other calls and the timer-driven background merge are outside the statement's list", "ErrMergeIsProgress and ErrMergeOutputOverflow are legitimate Merge results"}
 }
 func (c09) Required() []string {
-	return []string{"calls", "calls_put", "calls_listkeys", "calls_fold", "calls_iter", "calls_batch", "calls_merge", "overlap_pairs", "rotations"}
+	return []string{"calls", "calls_put", "calls_listkeys", "calls_fold", "calls_iter", "calls_batch", "calls_batchget", "shared_batch_calls", "calls_merge", "overlap_pairs", "rotations"}
 }
 func (c09) CaseBudget(string) time.Duration { return 300 * time.Second }
 
@@ -222,6 +222,10 @@ loop:
 		}
 		res.Add("recovered_panics", int64(cl.panics))
 		for e, n := range cl.errs {
+			if strings.HasPrefix(e, "shared_batch") {
+				res.Add(e, int64(n))
+				continue
+			}
 			res.Add("err_"+e, int64(n))
 		}
 		for _, cv := range cl.calls {
@@ -489,7 +493,78 @@ func c09ClientLoop(cl *c09Client, db *kv.DB, keys [][]byte, r *core.Rng, ncalls 
 				}
 			case 7:
 				note("Sync", db.Sync())
-			case 8, 11:
+			case 11:
+				// ONE Batch object shared by this client and 2..4 helper goroutines (the batch has
+				// its own lock for exactly that): helpers Get unstaged keys / Put / Delete on it
+				// while the owner stages and commits. Helpers log into private slots which the
+				// owner reads after Wait, i.e. after every call on the batch has returned.
+				b := db.NewBatch(kv.BatchOptions{Sync: r.Chance(1, 6)})
+				type hcall struct {
+					what string
+					k, v []byte
+					err  error
+				}
+				nh := r.Range(2, 4)
+				slots := make([][]hcall, nh)
+				hpanics := make([]string, nh)
+				var hwg sync.WaitGroup
+				for h := 0; h < nh; h++ {
+					hr := core.NewRng(r.U64())
+					vals := [][]byte{mkval(keys[h%len(keys)], hr.Range(4, 600)), mkval(keys[(h+1)%len(keys)], hr.Range(4, 600))}
+					hwg.Add(1)
+					go func(h int) {
+						defer hwg.Done()
+						defer func() {
+							if p := recover(); p != nil {
+								buf := make([]byte, 4096)
+								hpanics[h] = fmt.Sprintf("%v\n%s", p, buf[:runtime.Stack(buf, false)])
+							}
+						}()
+						for j := hr.Range(3, 10); j > 0; j-- {
+							bk := keys[hr.Intn(len(keys))]
+							switch c := hr.Intn(10); {
+							case c < 6:
+								v, err := b.Get(bk)
+								slots[h] = append(slots[h], hcall{"Batch.Get", bk, v, err})
+							case c < 8:
+								slots[h] = append(slots[h], hcall{"Batch.Put", nil, nil, b.Put(keys[(h+c)%len(keys)], vals[c-6])})
+							case c < 9:
+								slots[h] = append(slots[h], hcall{"Batch.Delete", nil, nil, b.Delete(bk)})
+							default:
+								runtime.Gosched()
+							}
+						}
+					}(h)
+				}
+				for j := r.Range(0, 3); j > 0; j-- {
+					bk := keys[r.Intn(len(keys))]
+					if r.Chance(1, 2) {
+						note("Batch.Put", b.Put(bk, mkval(bk, r.Range(4, 600))))
+					} else {
+						runtime.Gosched()
+					}
+				}
+				note("Commit", b.Commit())
+				hwg.Wait()
+				for h := range slots {
+					if hpanics[h] != "" {
+						cl.panics++
+						cl.viol = append(cl.viol, "a call on a shared Batch panicked: "+hpanics[h])
+						cl.vclass = append(cl.vclass, "panic")
+					}
+					for _, hc := range slots[h] {
+						if errors.Is(hc.err, kv.ErrBatchCommitted) {
+							cl.errs["shared_batch_call_after_commit"]++
+							continue
+						}
+						note(hc.what+" (shared batch)", hc.err)
+						if hc.what == "Batch.Get" && hc.err == nil {
+							checkVal("Batch.Get (shared batch)", hc.k, hc.v)
+						}
+						cl.errs["shared_batch_calls"]++
+					}
+				}
+			case 8:
 				b := db.NewBatch(kv.BatchOptions{Sync: r.Chance(1, 6)})
 				for j := r.Range(1, 5); j > 0; j-- {
 					bk := keys[r.Intn(len(keys))]
